@@ -465,16 +465,18 @@ namespace mh {
             MapModel init;
             LinChecker<MapModel> lc( cx.hist.ev );
             if ( !lc.check( init )) {
-                // diagnosis: does the history become linearizable once failed removals that overlap a successful
-                // removal of the same key are ignored? (tag used to tell a known contention pattern from anything else)
+                // diagnosis: does the history become linearizable once failed removals that overlap another thread's
+                // removal attempt on the same key are ignored? (tag used to tell a known contention pattern from anything else)
                 std::vector<Ev> relaxed;
                 for ( Ev const& e : cx.hist.ev ) {
                     bool drop = false;
                     if (( e.op == M_ERASE || e.op == M_ERASE_TAG ) && e.r == 0 )
                         for ( Ev const& s : cx.hist.ev ) {
-                            bool removes = (( s.op == M_ERASE || s.op == M_ERASE_TAG ) && s.r != 0 && s.a == e.a )
-                                || (( s.op == M_EXTRACT_MIN || s.op == M_EXTRACT_MAX ) && s.r == e.a );
-                            if ( removes && s.inv < e.resp && e.inv < s.resp )
+                            // another thread's removal attempt on the same key (whatever its outcome), or an
+                            // extract_min/extract_max (which may have been working on this key), overlapping e
+                            bool removal_attempt = (( s.op == M_ERASE || s.op == M_ERASE_TAG ) && s.a == e.a )
+                                || s.op == M_EXTRACT_MIN || s.op == M_EXTRACT_MAX;
+                            if ( removal_attempt && s.thread != e.thread && s.inv < e.resp && e.inv < s.resp )
                                 drop = true;
                         }
                     if ( !drop )
